@@ -56,6 +56,37 @@ func (e editSpec) apply(b []byte) []byte {
 		} else if i := bytes.Index(b, []byte(e.Old)); i >= 0 {
 			b = append(append(append([]byte(nil), b[:i]...), e.Text...), b[i+len(e.Old):]...)
 		}
+	case "mutate-tail": // swap the At-th residue letter from the end for another one
+		k := e.At
+	tail:
+		for i := len(b) - 1; i >= 0; i-- {
+			var to byte
+			switch b[i] {
+			case 'a':
+				to = 'c'
+			case 'c':
+				to = 'a'
+			case 'g':
+				to = 't'
+			case 't':
+				to = 'g'
+			case 'A':
+				to = 'C'
+			case 'C':
+				to = 'A'
+			case 'G':
+				to = 'T'
+			case 'T':
+				to = 'G'
+			default:
+				continue
+			}
+			if k == 0 {
+				b[i] = to
+				break tail
+			}
+			k--
+		}
 	case "set":
 		b = []byte(e.Text)
 	}
@@ -404,6 +435,7 @@ func (x *cliExec) runStep(i int, rs *runStep) {
 		spec.Stdin.Chunks = rs.Chunks
 	}
 	core.Current = x.sc
+	core.Tick()
 	r := runGts(x.w, rs.Argv, spec)
 	real := obs{Status: r.Status, Stdout: r.Stdout, Files: userFiles(x.w), Killed: r.Killed, Panic: r.Panic}
 	info := &stepInfo{idx: i, run: rs, real: real, ref: ref, fired: r.Fired, trace: r.Trace, ops: r.Ops}
@@ -647,6 +679,9 @@ func (x *cliExec) lastFaultKind(upto int) string {
 		st := x.sc.Steps[i]
 		if st.Disk != nil {
 			kind = st.Disk.Kind
+		}
+		if st.Edit != nil && x.sc.Mode == "c13" {
+			kind = "other-input"
 		}
 		if st.Run != nil {
 			if len(st.Run.Faults) > 0 {
